@@ -66,6 +66,9 @@ pub struct Args {
     /// raw 16.16 user coordinates, cycled over the axes
     pub coords: Vec<i32>,
     pub name_ids: Vec<u16>,
+    /// further user-space tuples (raw 16.16) to normalise / instance at (region peaks and edges
+    /// of the model a generated seed was built from)
+    pub extra_tuples: Vec<Vec<i32>>,
     /// include a light `Font::shape` call (shaping proper is C02)
     pub shape: bool,
     /// run the expensive stages (subset variants, instancing at several coordinates)
@@ -84,6 +87,7 @@ impl Args {
             ppem: 32,
             coords: vec![400 << 16, -(1 << 16), 0x7FFF_FFFF],
             name_ids: vec![0, 1, 2, 4, 6, 256, 0xFFFF],
+            extra_tuples: Vec::new(),
             shape: false,
             heavy: true,
         }
@@ -235,6 +239,10 @@ fn user_tuple(coords: &[i32], n: usize, mode: u8, axes: &[(i32, i32, i32)]) -> V
                 (0, Some(a)) => a.1,
                 (1, Some(a)) => a.0,
                 (2, Some(a)) => a.2,
+                // half way to the minimum / maximum: +-0.5 normalised, where regions commonly
+                // start, peak or end
+                (4, Some(a)) => ((a.0 as i64 + a.1 as i64) / 2) as i32,
+                (5, Some(a)) => ((a.1 as i64 + a.2 as i64) / 2) as i32,
                 _ => {
                     if coords.is_empty() {
                         0
@@ -346,8 +354,8 @@ fn drive(bytes: &[u8], args: &Args, run: &mut Run) {
         None => return,
     };
 
-    tables(&prov, args, run);
-    font_stages(&prov, args, run);
+    let tuples = tables(&prov, args, run);
+    font_stages(&prov, args, &tuples, run);
     subset_stages(&prov, args, run);
     variation_stages(&prov, args, run);
 }
@@ -366,7 +374,7 @@ fn count<T, E>(st: &mut Stats, r: Result<T, E>) -> Option<T> {
 }
 
 /// Table parsers called directly, the way applications (and allsorts-tools) call them.
-fn tables<P: FontTableProvider + SfntVersion>(prov: &P, args: &Args, run: &mut Run) {
+fn tables<P: FontTableProvider + SfntVersion>(prov: &P, args: &Args, run: &mut Run) -> Vec<OwnedTuple> {
     // head / maxp / hhea / hmtx / vhea / vmtx
     let basics = run.stage("tables:basic", |st| {
         let head = prov
@@ -563,7 +571,7 @@ fn tables<P: FontTableProvider + SfntVersion>(prov: &P, args: &Args, run: &mut R
     });
 
     // fvar (needed for CFF2 variable outlines), avar, STAT, HVAR, MVAR, gvar, cvar
-    let tuple: Option<OwnedTuple> = run
+    let tuples: Vec<OwnedTuple> = run
         .stage("tables:variations", |st| {
             let fvar_d = match prov.table_data(tag::FVAR) {
                 Ok(Some(d)) => d,
@@ -591,13 +599,17 @@ fn tables<P: FontTableProvider + SfntVersion>(prov: &P, args: &Args, run: &mut R
                 }
             }
             let n_axes = usize::from(fvar.axis_count());
-            let mut tuple = None;
-            for mode in 0..4u8 {
+            let mut tuples: Vec<OwnedTuple> = Vec::new();
+            for mode in [3u8, 0, 1, 2, 4, 5] {
                 let user = user_tuple(&args.coords, n_axes.min(64), mode, &axes);
                 if let Ok(t) = fvar.normalize(user.iter().copied(), avar.as_ref()) {
-                    if mode == 3 || tuple.is_none() {
-                        tuple = Some(t);
-                    }
+                    tuples.push(t);
+                }
+            }
+            for extra in args.extra_tuples.iter().take(6) {
+                let user: Vec<Fixed> = extra.iter().map(|v| Fixed::from_raw(*v)).collect();
+                if let Ok(t) = fvar.normalize(user.iter().copied(), avar.as_ref()) {
+                    tuples.push(t);
                 }
             }
             // wrong tuple lengths
@@ -618,51 +630,80 @@ fn tables<P: FontTableProvider + SfntVersion>(prov: &P, args: &Args, run: &mut R
                     }
                 }
             }
-            if let Some(t) = &tuple {
+            if !tuples.is_empty() {
                 if let Ok(Some(d)) = prov.table_data(tag::HVAR) {
                     if let Some(hvar) = count(st, ReadScope::new(&d).read::<HvarTable<'_>>()) {
-                        for g in probe_gids(num_glyphs.unwrap_or(0), &args.gids, 8) {
-                            let _ = std::hint::black_box(hvar.advance_delta(t, g));
-                            let _ = std::hint::black_box(hvar.left_side_bearing_delta(t, g));
-                            let _ = std::hint::black_box(hvar.right_side_bearing_delta(t, g));
+                        for t in tuples.iter().take(5) {
+                            for g in probe_gids(num_glyphs.unwrap_or(0), &args.gids, 8) {
+                                let _ = std::hint::black_box(hvar.advance_delta(t, g));
+                                let _ = std::hint::black_box(hvar.left_side_bearing_delta(t, g));
+                                let _ = std::hint::black_box(hvar.right_side_bearing_delta(t, g));
+                            }
                         }
                     }
                 }
                 if let Ok(Some(d)) = prov.table_data(tag::MVAR) {
                     if let Some(mvar) = count(st, ReadScope::new(&d).read::<MvarTable<'_>>()) {
-                        for r in mvar.value_records().take(32) {
-                            std::hint::black_box(mvar.lookup(r.value_tag, t));
+                        for t in tuples.iter().take(5) {
+                            for r in mvar.value_records().take(32) {
+                                std::hint::black_box(mvar.lookup(r.value_tag, t));
+                            }
+                            std::hint::black_box(mvar.lookup(tag::HASC, t));
                         }
-                        std::hint::black_box(mvar.lookup(tag::HASC, t));
                     }
                 }
             }
             if let Ok(Some(d)) = prov.table_data(tag::GVAR) {
                 if let Some(gvar) = count(st, ReadScope::new(&d).read::<GvarTable<'_>>()) {
-                    for g in probe_gids(num_glyphs.unwrap_or(0), &args.gids, 8) {
-                        for np in [0u16, 4, 5, 40, 0xFFFF] {
+                    // the point count handed to gvar is that of the glyph itself, as the API
+                    // documents; glyphs whose record cannot be read are skipped
+                    let loca_d = prov.table_data(tag::LOCA).ok().flatten();
+                    let glyf_d = prov.table_data(tag::GLYF).ok().flatten();
+                    let loca = match (&loca_d, &head, num_glyphs) {
+                        (Some(d), Some(h), Some(n)) => ReadScope::new(d).read_dep::<LocaTable<'_>>((usize::from(n), h.index_to_loc_format)).ok(),
+                        _ => None,
+                    };
+                    let glyf = match (&glyf_d, &loca) {
+                        (Some(d), Some(l)) => ReadScope::new(d).read_dep::<GlyfTable<'_>>(l).ok(),
+                        _ => None,
+                    };
+                    if let Some(glyf) = &glyf {
+                        for g in probe_gids(num_glyphs.unwrap_or(0), &args.gids, 8) {
+                            let np = match glyf.records().get(usize::from(g)).map(|r| r.number_of_points()) {
+                                Some(Ok(np)) => np,
+                                _ => continue,
+                            };
                             if let Ok(Some(store)) = gvar.glyph_variation_data(g, NumPoints::new(np)) {
                                 std::hint::black_box(store.headers().count());
+                                for h in store.headers().take(8) {
+                                    if let Some(i) = h.tuple_index() {
+                                        let _ = std::hint::black_box(gvar.shared_tuple(i).is_ok());
+                                    }
+                                    let _ = std::hint::black_box(h.peak_tuple(&gvar).is_ok());
+                                    std::hint::black_box(h.intermediate_region().is_some());
+                                    if let Ok(vd) = h.variation_data(NumPoints::new(np), store.shared_point_numbers()) {
+                                        std::hint::black_box((vd.len(), vd.iter().take(70_000).count()));
+                                    }
+                                }
                             }
                         }
                     }
-                    for i in [0u16, 1, 0xFFFF] {
-                        let _ = std::hint::black_box(gvar.shared_tuple(i).is_ok());
-                    }
+                    let _ = std::hint::black_box(gvar.shared_tuple(0).is_ok());
                 }
             }
             if let (Ok(Some(cvt_d)), Ok(Some(cvar_d))) = (prov.table_data(tag::CVT), prov.table_data(tag::CVAR)) {
                 if let Ok(cvt) = ReadScope::new(&cvt_d).read_dep::<CvtTable<'_>>(cvt_d.len() as u32) {
                     let r = ReadScope::new(&cvar_d)
                         .read_dep::<CvarTable<'_>>((fvar.axis_count(), cvt.values.len() as u32));
-                    if let (Some(cvar), Some(t)) = (count(st, r), &tuple) {
+                    if let (Some(cvar), Some(t)) = (count(st, r), tuples.first()) {
                         let _ = std::hint::black_box(cvar.apply(t, &cvt).map(|c| c.values.len()));
                     }
                 }
             }
-            tuple
+            Some(tuples)
         })
-        .flatten();
+        .flatten()
+        .unwrap_or_default();
 
     // CFF2 outlines
     run.stage("outline:cff2", |st| {
@@ -675,7 +716,23 @@ fn tables<P: FontTableProvider + SfntVersion>(prov: &P, args: &Args, run: &mut R
             None => return,
         };
         let n = cff2.char_strings_index.len().min(0xFFFF) as u16;
-        for t in [tuple.as_ref(), None] {
+        if let Some(vstore) = &cff2.vstore {
+            use allsorts::tables::variable_fonts::DeltaSetIndexMapEntry;
+            let _ = std::hint::black_box(vstore.try_to_owned().is_ok());
+            for i in [0u16, 1] {
+                if let Ok(regions) = vstore.regions(i) {
+                    std::hint::black_box(regions.take(64).filter(|r| r.is_ok()).count());
+                }
+                for t in tuples.iter().take(3) {
+                    for inner in [0u16, 1] {
+                        let _ = std::hint::black_box(vstore.adjustment(DeltaSetIndexMapEntry { outer_index: i, inner_index: inner }, t));
+                    }
+                }
+            }
+        }
+        let mut with: Vec<Option<&OwnedTuple>> = tuples.iter().take(5).map(Some).collect();
+        with.push(None);
+        for t in with {
             let mut outlines = CFF2Outlines { table: &cff2, tuple: t };
             let mut sink = NullSink { ops: 0 };
             for g in probe_gids(n, &args.gids, 48) {
@@ -683,6 +740,44 @@ fn tables<P: FontTableProvider + SfntVersion>(prov: &P, args: &Args, run: &mut R
                     Ok(()) => st.outlines_ok += 1,
                     Err(_) => st.outlines_err += 1,
                 }
+            }
+        }
+    });
+
+    // re-serialising what was parsed (the subsetter and instancer do this with every table
+    // they keep), and the table checksum helper
+    run.stage("rewrite", |st| {
+        use allsorts::binary::write::{WriteBinary, WriteBuffer};
+        if let Ok(Some(d)) = prov.table_data(tag::CFF) {
+            if let Ok(cff) = ReadScope::new(&d).read::<CFF<'_>>() {
+                let mut w = WriteBuffer::new();
+                if CFF::write(&mut w, &cff).is_ok() {
+                    st.parsers_ok += 1;
+                    std::hint::black_box(w.bytes().len());
+                }
+            }
+        }
+        if let Ok(Some(d)) = prov.table_data(tag::CFF2) {
+            if let Ok(cff2) = ReadScope::new(&d).read::<CFF2<'_>>() {
+                let mut w = WriteBuffer::new();
+                if CFF2::write(&mut w, cff2).is_ok() {
+                    st.parsers_ok += 1;
+                    std::hint::black_box(w.bytes().len());
+                }
+            }
+        }
+    });
+    run.stage("checksum", |_| {
+        let mut tags = prov.table_tags().unwrap_or_default();
+        tags.truncate(24);
+        for t in tags {
+            if let Ok(Some(d)) = prov.table_data(t) {
+                // contract of table_checksum: the data is padded to a multiple of four bytes
+                let mut padded = d.to_vec();
+                while padded.len() % 4 != 0 {
+                    padded.push(0);
+                }
+                let _ = std::hint::black_box(allsorts::checksum::table_checksum(&padded));
             }
         }
     });
@@ -705,7 +800,16 @@ fn tables<P: FontTableProvider + SfntVersion>(prov: &P, args: &Args, run: &mut R
     });
     run.stage("tables:layout", |st| {
         if let Ok(Some(d)) = prov.table_data(tag::GDEF) {
-            count(st, ReadScope::new(&d).read::<GDEFTable>());
+            if let Some(gdef) = count(st, ReadScope::new(&d).read::<GDEFTable>()) {
+                for g in probe_gids(num_glyphs.unwrap_or(0), &args.gids, 16) {
+                    std::hint::black_box(allsorts::gdef::gdef_is_mark(Some(&gdef), g));
+                    std::hint::black_box(allsorts::gdef::glyph_class(Some(&gdef), g));
+                    std::hint::black_box(allsorts::gdef::mark_attach_class(Some(&gdef), g));
+                    for set in [0usize, 1, 2] {
+                        std::hint::black_box(allsorts::gdef::glyph_is_mark_in_set(Some(&gdef), g, set));
+                    }
+                }
+            }
         }
         if let Ok(Some(d)) = prov.table_data(tag::GSUB) {
             count(st, ReadScope::new(&d).read::<LayoutTable<GSUB>>());
@@ -760,10 +864,11 @@ fn tables<P: FontTableProvider + SfntVersion>(prov: &P, args: &Args, run: &mut R
             }
         }
     });
+    tuples
 }
 
 /// `Font::new` and every accessor of `Font`.
-fn font_stages<P: FontTableProvider + SfntVersion>(prov: &P, args: &Args, run: &mut Run) {
+fn font_stages<P: FontTableProvider + SfntVersion>(prov: &P, args: &Args, tuples: &[OwnedTuple], run: &mut Run) {
     macro_rules! new_font {
         ($name:expr) => {
             match run.stage($name, |_| Font::new(RefProvider(prov))) {
@@ -817,7 +922,7 @@ fn font_stages<P: FontTableProvider + SfntVersion>(prov: &P, args: &Args, run: &
     let ok = run.stage("font:images", |st| {
         use allsorts::font::GlyphTableFlags;
         std::hint::black_box(font.has_embedded_images());
-        let gids = probe_gids(n, &args.gids, 8);
+        let gids = probe_gids(n, &args.gids, 16);
         for g in &gids {
             for depth in [BitDepth::ThirtyTwo, BitDepth::One] {
                 for ppem in [args.ppem, 0, 0xFFFF] {
@@ -831,9 +936,12 @@ fn font_stages<P: FontTableProvider + SfntVersion>(prov: &P, args: &Args, run: &
         if let Ok(mut f2) = Font::new(RefProvider(prov)) {
             f2.set_embedded_image_filter(GlyphTableFlags::all());
             std::hint::black_box(f2.has_embedded_images());
-            for g in gids.iter().take(6) {
-                if let Ok(Some(_)) = f2.lookup_glyph_image(*g, args.ppem, BitDepth::ThirtyTwo) {
-                    st.images_ok += 1;
+            let all_gids = probe_gids(n, &args.gids, 16);
+            for g in all_gids.iter() {
+                for (ppem, depth) in [(args.ppem, BitDepth::ThirtyTwo), (12, BitDepth::One), (20, BitDepth::Eight), (24, BitDepth::Four), (28, BitDepth::Two)] {
+                    if let Ok(Some(_)) = f2.lookup_glyph_image(*g, ppem, depth) {
+                        st.images_ok += 1;
+                    }
                 }
             }
             f2.set_embedded_image_filter(GlyphTableFlags::SBIX | GlyphTableFlags::EBDT);
@@ -858,20 +966,39 @@ fn font_stages<P: FontTableProvider + SfntVersion>(prov: &P, args: &Args, run: &
 
     if args.shape {
         run.stage("font:shape", |st| {
-            let glyphs = font.map_glyphs(&args.text, args.script, MatchingPresentation::NotRequired);
-            let r = font.shape(
-                glyphs,
-                args.script,
-                None,
-                &Features::Mask(FeatureMask::default()),
-                None,
-                true,
-            );
+            use allsorts::gsub::{GlyphOrigin, RawGlyph, RawGlyphFlags};
+            use allsorts::tinyvec::tiny_vec;
             st.shaped = true;
-            match r {
-                Ok(infos) => std::hint::black_box(infos.len()),
-                Err((_, infos)) => std::hint::black_box(infos.len()),
-            };
+            // the caller's text through the font's cmap, and the first glyph ids directly (so that
+            // coverage tables of tiny generated fonts are hit whatever their cmap says)
+            let mapped = font.map_glyphs(&args.text, args.script, MatchingPresentation::NotRequired);
+            let direct: Vec<RawGlyph<()>> = [1u16, 2, 3, 1, 4, 5, 2, 6, 7, 3]
+                .iter()
+                .enumerate()
+                .filter(|(_, g)| **g < n.max(1))
+                .map(|(i, g)| {
+                    let ch = (b'a' + i as u8) as char;
+                    RawGlyph {
+                        unicodes: tiny_vec![[char; 1] => ch],
+                        glyph_index: *g,
+                        liga_component_pos: 0,
+                        glyph_origin: GlyphOrigin::Char(ch),
+                        flags: RawGlyphFlags::empty(),
+                        extra_data: (),
+                        variation: None,
+                    }
+                })
+                .collect();
+            let features = Features::Mask(FeatureMask::default());
+            for (glyphs, kerning) in [(mapped, true), (direct.clone(), true), (direct, false)] {
+                let tuple = if kerning { tuples.first().map(|t| t.as_tuple()) } else { tuples.get(1).map(|t| t.as_tuple()) };
+                let infos = match font.shape(glyphs, args.script, None, &features, tuple, kerning) {
+                    Ok(infos) => infos,
+                    Err((_, infos)) => infos,
+                };
+                let mut layout = allsorts::glyph_position::GlyphLayout::new(&mut font, &infos, allsorts::glyph_position::TextDirection::LeftToRight, false);
+                let _ = std::hint::black_box(layout.glyph_positions().map(|p| p.len()));
+            }
         });
     }
 }
@@ -987,10 +1114,12 @@ fn variation_stages<P: FontTableProvider + SfntVersion>(prov: &P, args: &Args, r
         let _ = std::hint::black_box(allsorts::variations::axis_names(prov).map(|a| a.len()));
     });
     let n = axes.len();
-    let modes: &[u8] = if args.heavy { &[3, 0, 1, 2] } else { &[3] };
-    for mode in modes {
-        let user = user_tuple(&args.coords, n, *mode, &axes);
-        run.stage("instance", |st| match allsorts::variations::instance(prov, &user) {
+    let modes: &[u8] = if args.heavy { &[3, 0, 1, 2, 4, 5] } else { &[3] };
+    let mut users: Vec<Vec<Fixed>> = modes.iter().map(|m| user_tuple(&args.coords, n, *m, &axes)).collect();
+    let extra = if args.heavy { 6 } else { 2 };
+    users.extend(args.extra_tuples.iter().take(extra).map(|t| t.iter().map(|v| Fixed::from_raw(*v)).collect::<Vec<_>>()));
+    for user in &users {
+        run.stage("instance", |st| match allsorts::variations::instance(prov, user) {
             Ok((out, t)) => {
                 st.instance_ok += 1;
                 std::hint::black_box((out.len(), t.len()));
